@@ -43,9 +43,10 @@ Bounded == depth <= Code[c].stacksize + 4 /\ depth >= -4
 \* every jump / fall-through lands on an instruction of the same code object
 InCode == Reported("InCode") \/ pc \in 1..N
 \* no pop from an empty stack along any path
-NoUnderflow == Reported("NoUnderflow") \/ depth >= 0
+\* (3.7's dis.stack_effect cannot tell the two edges of a branch apart: depths are judged from 3.8 on)
+NoUnderflow == ~Doc.precise \/ Reported("NoUnderflow") \/ depth >= 0
 \* the declared stack size covers every reachable depth
-WithinDeclared == Reported("WithinDeclared") \/ depth <= Code[c].stacksize
+WithinDeclared == ~Doc.precise \/ Reported("WithinDeclared") \/ depth <= Code[c].stacksize
 \* the line table gives every reachable instruction a line of the source file
 LineInSource == Reported("LineInSource") \/ ((pc \in 1..N) => (I.line >= 1 /\ I.line <= Code[c].nlines))
 \* static table checks made by the extractor (index of every const/name/local/free operand in range)
